@@ -19,22 +19,45 @@ def candidates : List Str → Str → List Str
   | [], acc => [acc]
   | u :: us, acc => acc :: candidates us (u ++ acc)
 
-/-- the first candidate whose check is not "differs" decides -/
-def firstDecisive : List GotWant → GotWant
+/-- the verdict over the candidates (after the repair of `DoctestPart.check`): satisfied if SOME candidate is; otherwise the repr
+    error if one occurred; otherwise "differs" -/
+def verdictOf : List GotWant → GotWant
   | [] => .differs
-  | .differs :: r => firstDecisive r
-  | g :: _ => g
+  | .ok :: _ => .ok
+  | .differs :: r => verdictOf r
+  | .reprError :: r =>
+    match verdictOf r with
+    | .ok => .ok
+    | _ => .reprError
 
 theorem checkTrailing_eq (f : Flags) (want : Str) (ev : EvalResult) (us : List Str) (acc : Str) :
     checkTrailing f want ev us acc =
-      firstDecisive ((candidates us acc).map fun c => checkGotVsWant f want c ev) := by
+      verdictOf ((candidates us acc).map fun c => checkGotVsWant f want c ev) := by
   induction us generalizing acc with
   | nil =>
     simp only [checkTrailing, candidates, List.map_cons, List.map_nil]
-    cases checkGotVsWant f want acc ev <;> simp [firstDecisive]
+    cases checkGotVsWant f want acc ev <;> simp [verdictOf]
   | cons u us ih =>
     simp only [checkTrailing, candidates, List.map_cons]
-    cases h : checkGotVsWant f want acc ev <;> simp [firstDecisive, ih]
+    cases h : checkGotVsWant f want acc ev
+    · simp [verdictOf]
+    · simp [verdictOf, ih]
+    · simp only [verdictOf, ih]
+      generalize verdictOf (List.map (fun c => checkGotVsWant f want c ev) (candidates us (u ++ acc))) = v
+      cases v <;> rfl
+
+/-- the verdict is "satisfied" exactly when some candidate is -/
+theorem verdictOf_ok_iff (l : List GotWant) : verdictOf l = .ok ↔ .ok ∈ l := by
+  induction l with
+  | nil => simp [verdictOf]
+  | cons g l ih =>
+    cases g with
+    | ok => simp [verdictOf]
+    | differs => simp [verdictOf, ih]
+    | reprError =>
+      simp only [verdictOf, List.mem_cons, reduceCtorEq, false_or]
+      rw [← ih]
+      cases verdictOf l <;> simp
 
 /-- every candidate is the concatenation of a non-empty suffix of `unmatched ++ [stdout]` -/
 theorem candidates_spec (us : List Str) (acc c : Str) :
@@ -52,42 +75,40 @@ theorem candidates_spec (us : List Str) (acc c : Str) :
       | zero => exact Or.inl (by simpa using h)
       | succ k => exact Or.inr ⟨k, by omega, by simpa using h⟩
 
-/-- ★ `want_ok_iff`: when the value's repr does not raise, a want is satisfied iff SOME trailing
-    portion of the output produced since the previous want (the last `k` outputs, `k ≥ 0` earlier
-    ones plus this part's own) satisfies `check_got_vs_want`: stdout, or the value's repr when
-    there is no stdout, or either when both exist. -/
-theorem want_ok_iff (f : Flags) (want out : Str) (ev : EvalResult) (unm : List Str)
-    (hev : ev ≠ .reprRaises) :
+/-- ★ `want_ok_iff` (FULL since the repair of `DoctestPart.check`; before it the statement needed the hypothesis "the value's repr
+    does not raise", and the excluded point was a false fail of the real code, see `want_ok_iff_old_code_fails`): a want is satisfied
+    iff SOME trailing portion of the output produced since the previous want (the last `k` outputs, `k ≥ 0` earlier ones plus this
+    part's own) satisfies `check_got_vs_want`: stdout, or the value's repr when there is no stdout, or either when both exist. -/
+theorem want_ok_iff (f : Flags) (want out : Str) (ev : EvalResult) (unm : List Str) :
     partCheck f want out ev unm = .ok ↔
       ∃ k, k ≤ unm.length ∧
         checkGotVsWant f want (((unm.reverse.take k).reverse).flatten ++ out) ev = .ok := by
   unfold partCheck
-  rw [checkTrailing_eq]
-  have nr : ∀ c, checkGotVsWant f want c ev ≠ .reprError := by
-    intro c
-    unfold checkGotVsWant
-    cases ev with
-    | notEvaled => simp only; split <;> simp
-    | value r => simp only; split <;> (try split) <;> (try split) <;> simp
-    | reprRaises => exact absurd rfl hev
-  have key : ∀ (l : List Str), firstDecisive (l.map fun c => checkGotVsWant f want c ev) = .ok ↔
-      ∃ c ∈ l, checkGotVsWant f want c ev = .ok := by
-    intro l
-    induction l with
-    | nil => simp [firstDecisive]
-    | cons c l ih =>
-      simp only [List.map_cons, List.mem_cons, exists_eq_or_imp]
-      cases h : checkGotVsWant f want c ev
-      · simp [firstDecisive]
-      · simp [firstDecisive, ih]
-      · exact absurd h (nr c)
-  rw [key]
+  rw [checkTrailing_eq, verdictOf_ok_iff]
+  simp only [List.mem_map]
   constructor
   · rintro ⟨c, hc, h⟩
     obtain ⟨k, hk, rfl⟩ := (candidates_spec _ _ _).mp hc
     exact ⟨k, by simpa using hk, h⟩
   · rintro ⟨k, hk, h⟩
     exact ⟨_, (candidates_spec _ _ _).mpr ⟨k, by simpa using hk, rfl⟩, h⟩
+
+/-- the search as it was before the repair: a repr error ended it at once -/
+def checkTrailingOld (f : Flags) (want : Str) (ev : EvalResult) : List Str → Str → GotWant
+  | [], acc => checkGotVsWant f want acc ev
+  | u :: us, acc =>
+    match checkGotVsWant f want acc ev with
+    | .ok => .ok
+    | .reprError => .reprError
+    | .differs => checkTrailingOld f want ev us (u ++ acc)
+
+/-- the false fail that was repaired: `>>> print('a')` / `>>> badp(1)` (prints `q1`, returns a value whose repr raises) with the
+    want `a` / `q1`: the want equals everything written since the previous want, the old search stopped at the first candidate -/
+def demoFlags : Flags := { ellipsis := true, normWs := true, ignWs := false, normRepr := true, noBlank := false }
+
+theorem want_ok_iff_old_code_fails :
+    checkTrailingOld demoFlags "a\nq1".toList .reprRaises ["a\n".toList] "q1\n".toList = .reprError ∧
+    partCheck demoFlags "a\nq1".toList "q1\n".toList .reprRaises ["a\n".toList] = .ok := by decide +kernel
 
 /-- the three ways a single candidate text satisfies a want (`check_got_vs_want`) -/
 theorem candidate_ok_iff (f : Flags) (want got : Str) (r : Str) :
